@@ -9,12 +9,22 @@ From Yv Require Export Common.Base C03.Defs C03.Model C03.Spec.
      in the expression, the expression text, the variables before, and what
      yash_arith::eval returned together with the variables afterwards
      (the model's [outcome] type is reused; RFuel is never sent). *)
+(* what the child process did *)
+Inductive deep_out :=
+| DOut (o : outcome)        (* it returned: value or error *)
+| DCrash (signal : N)       (* it was killed by a signal (0 = other abnormal exit) *)
+| DTimeout.
+
 Inductive case :=
 | KAscii (tbl : list (N * N))
 | KEval (ucls : list (N * N)) (expression : str) (vars : env) (out : outcome)
 (* the same through the whole shell: `args "$((expression))"` after assigning the
    variables, then the variables read back; only value / error is observable *)
-| KShell (ucls : list (N * N)) (expression : str) (vars : env) (ans : answer).
+| KShell (ucls : list (N * N)) (expression : str) (vars : env) (ans : answer)
+(* deep nesting, evaluated in a child process with the inherited (bounded) stack:
+   kind 0 = n nested parentheses around 1, kind 1 = n chained `!` before 1,
+   kind 2 = n nested `?:` in the then-branch; no variables *)
+| KDeep (kind n : N) (out : deep_out).
 
 Fixpoint assoc_N (c : N) (tbl : list (N * N)) : option N :=
   match tbl with
@@ -88,6 +98,25 @@ Definition classified (ucls : list (N * N)) (s : str) : bool :=
   forallb (fun c => (c <? 128)%N
                     || match assoc_N c ucls with Some _ => true | None => false end) s.
 
+Definition deep_text (kind : N) (n : nat) : str :=
+  match kind with
+  | 0%N => repeat 40%N n ++ [49%N] ++ repeat 41%N n                   (* (((1))) *)
+  | 1%N => repeat 33%N n ++ [49%N]                                    (* !!!1 *)
+  | _ => concat (repeat [49; 63]%N n) ++ [49%N] ++ concat (repeat [58; 48]%N n)  (* 1?1?1:0:0 *)
+  end.
+
+(* the value of [deep_text kind n] *)
+Definition deep_expected (kind n : N) : Z :=
+  match kind with
+  | 1%N => if N.even n then 1%Z else 0%Z
+  | _ => 1%Z
+  end.
+
+(* up to this depth the text is built and handed to the oracle and the model;
+   beyond it only the closed form of its value is used (the evaluation of the
+   model inside Coq has a stack of its own) *)
+Definition deep_model_limit : N := 1000.
+
 Definition run_case (c : case) : verdict :=
   match c with
   | KAscii tbl =>
@@ -111,6 +140,27 @@ Definition run_case (c : case) : verdict :=
         match oracle cls s vars ans with
         | 0%N => if answer_eqb (answer_of (run cls s vars)) ans then 0%N else 1%N
         | k => k
+        end
+  | KDeep kind n out =>
+      if (2 <? kind)%N then 99%N
+      else
+        match out with
+        | DCrash _ => 8%N
+        | DTimeout => 9%N
+        | DOut o =>
+            if (n <=? deep_model_limit)%N then
+              let s := deep_text kind (N.to_nat n) in
+              let cls := cls_of [] in
+              match oracle cls s [] (answer_of o) with
+              | 0%N => if outcome_eqb (run cls s []) o then 0%N else 1%N
+              | k => k
+              end
+            else
+              match o with
+              | RVal v e => if (v =? deep_expected kind n)%Z && env_equiv e [] then 0%N else 3%N
+              | RErr _ _ _ => 5%N
+              | RPanic | RFuel => 6%N
+              end
         end
   end.
 
